@@ -1165,6 +1165,57 @@ Section Proc.
     end.
 End Proc.
 
+(* dns.rdtypes.util.weighted_processing_order (SRV, URI): the same grouping by priority, but
+   inside a group the records are drawn one by one with probability proportional to their weight.
+   random.uniform is a parameter; weights are scaled by 10 so that the 0.1 of weightless records
+   is the integer 1 (an abstraction of the float arithmetic, exact for the values the
+   correspondence uses). *)
+Section Weighted.
+  Variable A : Type.
+  Variable uniform : Z -> Z.              (* r = random.uniform(0, total), scaled *)
+  Variable prio : A -> Z.
+  Variable weight : A -> Z.               (* rdata._processing_weight() *)
+
+  Definition sweight (x : A) : Z := if weight x =? 0 then 1 else 10 * weight x.
+
+  (* for n, rdata in enumerate(rdatas): if weight > r: break; r -= weight
+     -> the chosen record and the others (the last one when the loop runs out) *)
+  Fixpoint wpick (r : Z) (l : list A) : option (A * list A) :=
+    match l with
+    | [] => None
+    | x :: rest =>
+        match rest with
+        | [] => Some (x, [])
+        | _ :: _ =>
+            if sweight x >? r then Some (x, rest)
+            else match wpick (r - sweight x) rest with
+                 | Some (y, rest') => Some (y, x :: rest')
+                 | None => None
+                 end
+        end
+    end.
+
+  (* while len(rdatas) > 1: draw one; ordered.append(rdatas[0]).  fuel = len(rdatas) *)
+  Fixpoint wextract_loop (fuel : nat) (total : Z) (l : list A) : list A :=
+    match l with
+    | [] => []
+    | [x] => [x]
+    | _ :: _ :: _ =>
+        match fuel with
+        | O => l
+        | S f => match wpick (uniform total) l with
+                 | Some (x, rest) => x :: wextract_loop f (total - sweight x) rest
+                 | None => l
+                 end
+        end
+    end.
+
+  Definition wextract (l : list A) : list A :=
+    wextract_loop (length l) (fold_right (fun x acc => sweight x + acc) 0 l) l.
+
+  Definition weighted_order (items : list A) : list A := priority_order A wextract prio items.
+End Weighted.
+
 (* ------------------------------------------------------------------------------------------ *)
 (* 6. harness interface *)
 
@@ -1498,9 +1549,16 @@ Definition run (c : obs) : obs :=
           end
       | _, _, _, _, _ => E eBadCase
       end
-  | L [I 10; I mode; L items] =>                             (* processing_order with shuffle := reverse *)
-      match opt_map (fun o => match o with L [I p; I i] => Some (p, i) | _ => None end) items with
-      | Some l => L (map (fun x => I (snd x)) (processing_order (Z * Z) (@rev _) fst (mode =? 1) l))
+  | L [I 10; I mode; L items] =>                             (* processing_order; shuffle := reverse,
+                                                                uniform := 0 (mode 2) or total (mode 3) *)
+      match opt_map (fun o => match o with L [I p; I i; I w] => Some (p, i, w) | _ => None end) items with
+      | Some l =>
+          let pr := fun x : Z * Z * Z => fst (fst x) in
+          let wt := fun x : Z * Z * Z => snd x in
+          L (map (fun x => I (snd (fst x)))
+                 (if mode =? 2 then match l with [] => [] | _ => weighted_order _ (fun _ => 0) pr wt l end
+                  else if mode =? 3 then match l with [] => [] | _ => weighted_order _ (fun t => t) pr wt l end
+                  else processing_order _ (@rev _) pr (mode =? 1) l))
       | None => E eBadCase
       end
   | L [I 6; v; I enc; ml; I eok; I tup] =>                   (* _as_bytes / _as_tuple(_as_bytes) *)
